@@ -441,8 +441,10 @@ def run(ck: core.Check):
         for r, o in zip(col, outs):
             real = r["real"]
             if real[0] == "ok":
-                ok = o.get("functions") == real[1]
+                # the order of model.functions carries no meaning in ONNX: compared as a set, order counted
+                ok = o.get("functions") is not None and sorted(o["functions"]) == sorted(real[1])
                 cst["agree_functions"] += int(ok)
+                cst["same_order"] = cst.get("same_order", 0) + int(o.get("functions") == real[1])
             else:
                 ok = o.get("err") == "runtime"
                 cst["agree_error"] += int(ok)
